@@ -1,7 +1,7 @@
 //! Engine E3 `lib-mon`: generated-input monitors over the utility crates
 //! (`gmsol-utils`, `gmsol-chainlink-datastreams`, `gmsol-solana-utils`) with exact oracles.
 //!
-//! `lib-mon <ID> [--tier quick|thorough] [--replay file] [--miri summary.json]`
+//! `lib-mon <ID> [--tier quick|thorough] [--replay file] [--miri <summary.json>|run]` (env `LIBMON_MIRI` alike)
 //!
 //! The same per-case check functions are used by the `#[test]` mini workloads at the bottom of
 //! each module (`miri_c26_*`, `miri_c27_*`, `miri_c28_*`, `miri_c34_*`), which `miri.sh` runs under
@@ -16,6 +16,7 @@ pub mod util;
 
 fn main() {
     let args = vcommon::Args::parse();
+    miri::start(&args);
     let code = match args.id.as_str() {
         "C26" => Some(c26::run(&args)),
         "C27" => Some(c27::run(&args)),
